@@ -55,6 +55,10 @@ def bezier_radialrange(c, n, m):
     dmin, tmin, dmax, tmax = mn[0], mn[1], mx[0], mx[1]
     # the polynomial handed to the root finder is d/dt |B(t)-z|^2
     t = c.real('t')
+    # every critical point is a candidate only if the root finder is asked, whatever the curve and the query point
+    c.ensures('the-root-finder-is-consulted', 'p' in seen)
+    if 'p' not in seen:
+        return
     dp = seen['p']
     want = 2 * (ops.re(bez.bern(P, t) - z) * ops.re(bez.dbern(P, t, 1)) + ops.im(bez.bern(P, t) - z) * ops.im(bez.dbern(P, t, 1)))
     c.ensures('critical-point-polynomial-is-d/dt|B(t)-z|^2', ops.eq(c.call(dp, t), want))
